@@ -108,7 +108,7 @@ theorem ivalConv_sound (t : Ty) (r : Option (Int × Int)) (v : Int)
   split at h
   · cases h
   · rename_i ht
-    have hr := conv_range t ht v
+    have hr := conv_range t (fun h => ht (Or.inl h)) v
     rcases r with _ | ⟨l0, h0⟩
     · simp at h; obtain ⟨rfl, rfl⟩ := h; exact hr
     · simp only at h
@@ -116,7 +116,7 @@ theorem ivalConv_sound (t : Ty) (r : Option (Int × Int)) (v : Int)
       · rename_i hc
         simp at h; obtain ⟨rfl, rfl⟩ := h
         have := hv _ _ rfl
-        rw [conv_id t ht hc.2.2 v (by omega) (by omega)]; exact this
+        rw [conv_id t (fun h => ht (Or.inl h)) hc.2.2 v (by omega) (by omega)]; exact this
       · simp at h; obtain ⟨rfl, rfl⟩ := h; exact hr
 
 theorem ivalBin_sound (op : BinOp) (rx ry : Option (Int × Int)) (vx vy : Int)
@@ -176,6 +176,7 @@ theorem ival_sound {env : Env} {a : Abs} (h : SatB env a.bnd) (err : Bool) :
     simp only [ival] at hi'
     exact ivalBin_sound op _ _ _ _ (fun l h e => ihx l h e) (fun l h e => ihy l h e) lo hi hi'
   | lnot a _ => intro lo hi hi'; simp [ival] at hi'; obtain ⟨rfl, rfl⟩ := hi'; simp only [eval]; exact b2i_range _
+  | cellIDValid a _ => intro lo hi hi'; simp [ival] at hi'; obtain ⟨rfl, rfl⟩ := hi'; simp only [eval]; exact b2i_range _
   | errNil => intro lo hi hi'; simp [ival] at hi'; obtain ⟨rfl, rfl⟩ := hi'; simp only [eval]; exact b2i_range _
   | errSet => intro lo hi hi'; simp [ival] at hi'; obtain ⟨rfl, rfl⟩ := hi'; simp only [eval]; exact b2i_range _
 
